@@ -34,7 +34,7 @@ def listing(d, bases, contents):
             out.append([abst(raw, bases), contents.ident(f.read())])
     return out
 
-def replay_history(binary, h, hid, drv, bases, kill=False):
+def replay_history(binary, h, hid, drv, bases, kill=False, inject=None):
     """Replays one history; returns list of records for Trace_Backup."""
     root = os.path.join(scratch(), "bk-%s" % hid)
     shutil.rmtree(root, ignore_errors=True)
@@ -76,9 +76,17 @@ def replay_history(binary, h, hid, drv, bases, kill=False):
             except OSError:
                 pass
             break
-        r = runner.run_xcp(binary, argv, cwd=root, timeout=30)
+        st_ = None
+        if inject and i == len(h["steps"]) - 1:
+            st_ = {"out": root + ".st", "trace": nsplane.MUTATING + ",getdents64", "inject": [inject]}
+        r = runner.run_xcp(binary, argv, cwd=root, timeout=30, strace=st_)
+        if st_:
+            try:
+                os.unlink(root + ".st")
+            except OSError:
+                pass
         after = listing(d, bases, contents)
-        recs.append({"id": "%s/step%d" % (hid, i + 1), "kind": "step", "before": before, "after": after, "name": st["name"], "mode": st["mode"], "v": st["v"],
+        recs.append({"id": "%s/step%d%s" % (hid, i + 1, "/" + inject if st_ else ""), "kind": "step", "before": before, "after": after, "name": st["name"], "mode": st["mode"], "v": st["v"],
                      "exit": -9 if r.exit is None else r.exit, "_stderr": r.stderr[-200:]})
     shutil.rmtree(root, ignore_errors=True)
     return recs
